@@ -96,12 +96,14 @@ Print Assumptions C07_default_fill_table.
 
 (* Full statement wanted by the property:
      forall d A unpack raw, apply_masking_model d A unpack raw = Ok (read_model d A true unpack raw).
-   It is false of the faithful model in three ways (the three _refuted theorems below,
-   open findings); it holds - for every data type, every length, NaN and vector
-   missing values included - under the guard: unpacking changes nothing (unpack off, or no
-   scale_factor / add_offset / effective _Unsigned), every masking attribute present is
-   numeric and safely castable, valid_range has two values and is not accompanied by
-   valid_min / valid_max. *)
+   After handoff/C07-fix2-3.diff (apply_masking uses the reader's safe-cast test and its
+   valid_range precedence) it holds for every data type, every length and every combination
+   of masking attributes - unsafe, NaN, vector- and text-valued ones, valid_range with
+   valid_min / valid_max or with one or three values included - under one guard only:
+   unpacking changes nothing (unpack off, or no scale_factor / add_offset / effective
+   _Unsigned); fill_ok says that a _FillValue attribute has one value of the variable's
+   type, which the netCDF library enforces.  Without not_packed it is false
+   (C07_apply_masking_packed_refuted, open finding). *)
 Theorem C07_apply_masking_reproduces :
   forall d A unpack raw,
   apply_guard d A unpack = true ->
@@ -109,24 +111,52 @@ Theorem C07_apply_masking_reproduces :
 Proof. exact apply_masking_reproduces. Qed.
 Print Assumptions C07_apply_masking_reproduces.
 
+(* Bounds, node coordinates and any other variable that is masked through its parent
+   construct, with a data type and attributes of their own: reproduced as long as no
+   masking property is taken over from the parent (no_inherit) ... *)
+Theorem C07_apply_masking_bounds_reproduces :
+  forall db Ab Ap unpack raw,
+  apply_guard db Ab unpack = true -> no_inherit Ab Ap = true ->
+  apply_masking_bounds db db Ab Ap unpack raw = Ok (read_model db Ab true unpack raw).
+Proof. exact apply_masking_bounds_reproduces. Qed.
+Print Assumptions C07_apply_masking_bounds_reproduces.
+
+(* ... and false otherwise: the masked read of the bounds looks at the attributes of the
+   bounds variable only, apply_masking falls back on the parent's (open finding). *)
+Theorem C07_apply_masking_bounds_inherit_refuted :
+  exists db Ab Ap raw, apply_guard db Ab false = true /    apply_masking_bounds db db Ab Ap false raw <> Ok (read_model db Ab true false raw).
+Proof. exact apply_masking_bounds_inherit_refuted. Qed.
+Print Assumptions C07_apply_masking_bounds_inherit_refuted.
+
+(* The field and all of its metadata constructs: Field.apply_masking after a mask=False
+   read presents, for the field's data, for every construct with data, for their bounds
+   and interior rings - any number of them, of any types and lengths - what the masked
+   read presents. *)
+Theorem C07_field_apply_masking_reproduces :
+  forall unpack f,
+  forallb (fvar_guard unpack) f = true ->
+  field_apply_masking unpack f = map (@Ok _) (field_read true unpack f).
+Proof. exact field_apply_masking_reproduces. Qed.
+Print Assumptions C07_field_apply_masking_reproduces.
+
+(* The default fill value that a mask=False read records on a variable without _FillValue
+   has to be the one of that variable's own data type: any type with the same default
+   does, the parent's type (an i4 coordinate with f8 bounds) does not. *)
+Theorem C07_recorded_fill_same_default :
+  forall rd d A unpack raw,
+  default_fill rd = default_fill d -> is_float rd = is_float d ->
+  apply_masking_recorded rd d A unpack raw = apply_masking_model d A unpack raw.
+Proof. exact recorded_fill_same_default. Qed.
+Print Assumptions C07_recorded_fill_same_default.
+
+Theorem C07_recorded_fill_of_other_type_refuted :
+  exists rd d A raw, apply_guard d A false = true /    apply_masking_recorded rd d A false raw <> Ok (read_model d A true false raw).
+Proof. exact recorded_fill_of_other_type_refuted. Qed.
+Print Assumptions C07_recorded_fill_of_other_type_refuted.
+
 (* F07f: fill and valid values live in the packed space; apply_masking compares them with
    unpacked data. *)
 Theorem C07_apply_masking_packed_refuted :
-  exists d A raw, apply_masking_model d A true raw <> Ok (read_model d A true true raw).
+  exists d A raw, fill_ok d A = true /\ apply_masking_model d A true raw <> Ok (read_model d A true true raw).
 Proof. exact apply_masking_packed_refuted. Qed.
 Print Assumptions C07_apply_masking_packed_refuted.
-
-(* F07g: an attribute that cannot be cast safely is ignored by the read, used by apply_masking. *)
-Theorem C07_apply_masking_unsafe_attribute_refuted :
-  exists d A raw, not_packed d A false = true /\
-    apply_masking_model d A false raw <> Ok (read_model d A true false raw).
-Proof. exact apply_masking_unsafe_attribute_refuted. Qed.
-Print Assumptions C07_apply_masking_unsafe_attribute_refuted.
-
-(* F07h: valid_range together with valid_min: the read uses valid_range, apply_masking raises. *)
-Theorem C07_apply_masking_range_and_min_refuted :
-  exists d A raw, not_packed d A false = true /\
-    apply_masking_model d A false raw = Err ValueErr /\
-    exists r, read_model d A true false raw = r.
-Proof. exact apply_masking_range_and_min_refuted. Qed.
-Print Assumptions C07_apply_masking_range_and_min_refuted.
